@@ -1,6 +1,6 @@
 use crate::{
     ast::{DataType, DataTypeMember, Field, Struct, Variant},
-    attr::{ChildAttr, ChildParentsAttr, ChildPath, DataTypeAttrs, DataTypeInstruction, FallibleKind, GhostIdent, GhostsAttr, Kind, MemberAttrs, MemberInstruction, ParentAttr, TraitAttr, TraitAttrCore, TypeHint, TypePath, WhereAttr},
+    attr::{ChildAttr, ChildParentsAttr, ChildPath, StructGhostAttrCore, DataTypeAttrs, DataTypeInstruction, FallibleKind, GhostIdent, GhostsAttr, Kind, MemberAttrs, MemberInstruction, ParentAttr, TraitAttr, TraitAttrCore, TypeHint, TypePath, WhereAttr},
 };
 use proc_macro2::Span;
 use quote::ToTokens;
@@ -100,10 +100,25 @@ pub(crate) fn validate(input: &DataType) -> Result<()> {
     match input {
         DataType::Struct(s) => {
             validate_fields(s, attrs, &data_type_attrs_by_kind, &type_paths, &mut errors);
+
+            for (data_type_attr, kind, _) in data_type_attrs_by_kind.iter().filter(|(x, kind, _)| matches!(kind, Kind::OwnedInto | Kind::RefInto) && x.quick_return.is_none()) {
+                if !s.fields.iter().any(|x| x.attrs.has_parameterless_parent_attr(&data_type_attr.ty)) {
+                    validate_ghost_entry_forms(attrs.ghosts_attr(&data_type_attr.ty, kind), s.named_fields, data_type_attr.type_hint, attrs.child_parents_attr(&data_type_attr.ty), &data_type_attr.ty, &mut errors);
+                }
+            }
         },
         DataType::Enum(e) => {
             for v in &e.variants {
                 validate_variant_fields(v, attrs, &type_paths, &mut errors);
+
+                for (data_type_attr, kind, _) in data_type_attrs_by_kind.iter().filter(|(x, kind, _)| matches!(kind, Kind::OwnedInto | Kind::RefInto) && x.quick_return.is_none()) {
+                    if !v.unit {
+                        let type_hint = v.attrs.type_hint(&data_type_attr.ty).map_or(TypeHint::Unspecified, |x| x.type_hint);
+                        let ghosts = v.attrs.ghosts_attrs.iter().find(|x| x.applicable_to[kind] && x.attr.container_ty.as_ref() == Some(&data_type_attr.ty))
+                            .or_else(|| v.attrs.ghosts_attrs.iter().find(|x| x.applicable_to[kind] && x.attr.container_ty.is_none())).map(|x| &x.attr);
+                        validate_ghost_entry_forms(ghosts, v.named_fields, type_hint, None, &data_type_attr.ty, &mut errors);
+                    }
+                }
 
                 for f in &v.fields {
                     validate_dedicated_member_attrs(&f.attrs.attrs, |x| x.attr.container_ty.as_ref(), None, f.member.span(), &type_paths, &mut errors);
@@ -219,6 +234,35 @@ fn validate_ghost_entries(ghost_attrs: &[GhostsAttr], enum_level: bool, variant_
             },
             (GhostIdent::Member(syn::Member::Unnamed(index)), true) => {
                 errors.insert(format!("Ghost '{}' is an index. #[ghosts(...)] instructions of an enum expect variant names or variant patterns.", index.index), index.span);
+            },
+            _ => (),
+        }
+    }
+}
+
+// An Into conversion writes a #[ghosts(..)] entry into the literal that builds the counterpart (or the nested struct a child
+// path leads to): a name only fits a literal in struct form, an index only one in tuple form
+fn validate_ghost_entry_forms(ghosts: Option<&StructGhostAttrCore>, named: bool, type_hint: TypeHint, child_parents: Option<&ChildParentsAttr>, ty: &TypePath, errors: &mut HashMap<String, Span>) {
+    for ghost_data in ghosts.into_iter().flat_map(|x| &x.ghost_data) {
+        let type_hint = match &ghost_data.child_path {
+            Some(child_path) => match child_parents.and_then(|x| x.child_parents.iter().find(|child_data| child_data.check_match(child_path.get_child_path_str(None)))) {
+                Some(child_data) => child_data.type_hint,
+                None => continue,
+            },
+            None => type_hint,
+        };
+        let tuple_form = match type_hint {
+            TypeHint::Tuple => true,
+            TypeHint::Struct => false,
+            TypeHint::Unspecified => !named,
+            TypeHint::Unit => continue,
+        };
+        match (&ghost_data.ghost_ident, tuple_form) {
+            (GhostIdent::Member(syn::Member::Named(ident)), true) => {
+                errors.insert(format!("Ghost '{}' is a name, but {} is built in tuple form here: use the member's index.", ident, ty.path_str), ident.span());
+            },
+            (GhostIdent::Member(syn::Member::Unnamed(index)), false) => {
+                errors.insert(format!("Ghost '{}' is an index, but {} is built in struct form here: use the member's name.", index.index, ty.path_str), index.span);
             },
             _ => (),
         }
